@@ -234,6 +234,52 @@ def install():
     _un("fix", "fix(x) = trunc(x)", lambda e: S.L(e).trunc())
     _un("signbit", "signbit(x) = x < 0", lambda e: bool(S.L(e) < 0))
 
+    @stub(onp, "gradient", "second-order central differences in the interior, first-order one-sided at the edges, unit or scalar spacing (NumPy's default edge_order=1)")
+    @takes_orig
+    def gradient(orig):
+        def f(a, *varargs, axis=None, edge_order=1):
+            if not _is_sym(a):
+                return orig(a, *varargs, axis=axis, edge_order=edge_order)
+            a = onp.asarray(a, dtype=object)
+            nd = a.ndim
+            if axis is None:
+                axes = tuple(range(nd))
+            elif isinstance(axis, (int, onp.integer)):
+                axes = (int(axis) % nd,)
+            else:
+                axes = tuple(int(x) % nd for x in axis)
+            if len(set(axes)) != len(axes):
+                raise ValueError("duplicate value in 'axis'")
+            if edge_order != 1:
+                raise Unsupported("gradient stub: edge_order != 1")
+            if len(varargs) == 0:
+                dx = [1.0] * len(axes)
+            elif len(varargs) == 1 and onp.ndim(varargs[0]) == 0:
+                dx = [varargs[0]] * len(axes)
+            elif len(varargs) == len(axes) and all(onp.ndim(v) == 0 for v in varargs):
+                dx = list(varargs)
+            else:
+                raise Unsupported("gradient stub: coordinate-array spacing")
+            outs = []
+            for ax, h in zip(axes, dx):
+                n = a.shape[ax]
+                if n < 2:
+                    raise ValueError("Shape of array too small to calculate a numerical gradient, at least (edge_order + 1) elements are required.")
+                am = onp.moveaxis(a, ax, 0)
+                out = onp.empty(am.shape, dtype=object)
+                for i in range(n):
+                    if i == 0:
+                        out[0] = (am[1] - am[0]) / h
+                    elif i == n - 1:
+                        out[n - 1] = (am[n - 1] - am[n - 2]) / h
+                    else:
+                        out[i] = (am[i + 1] - am[i - 1]) / (2.0 * h)
+                outs.append(onp.moveaxis(out, 0, ax))
+            if len(axes) == 1 and (axis is not None and isinstance(axis, (int, onp.integer)) or nd == 1):
+                return outs[0]
+            return tuple(outs)
+        return f
+
     # ---- linalg closed forms (n <= 3)
     import numpy.linalg as la
 
